@@ -209,6 +209,26 @@ func loopInvariant(lp *Loop, v ssa.Value) bool {
 				if cv := canonCell(y); cv != v {
 					return loopInvariant(lp, cv)
 				}
+				// a field load whose field is not stored and which no call can change inside the loop
+				if fa, ok := y.X.(*ssa.FieldAddr); ok && y.Op == token.MUL && loopInvariant(lp, fa.X) {
+					fv := fieldOfAddr(fa)
+					clean := fv != nil
+					for b := range lp.Body {
+						for _, in := range b.Instrs {
+							switch z := in.(type) {
+							case *ssa.Store:
+								if sa, ok := z.Addr.(*ssa.FieldAddr); ok && fieldOfAddr(sa) == fv {
+									clean = false
+								}
+							case ssa.CallInstruction:
+								if _, isB := z.Common().Value.(*ssa.Builtin); !isB {
+									clean = false
+								}
+							}
+						}
+					}
+					return clean
+				}
 			case *ssa.Call:
 				if isBuiltinCall(y, "len") {
 					return loopInvariant(lp, y.Call.Args[0])
@@ -843,13 +863,8 @@ func headerGuards(pr *Prover, at ssa.Instruction, extra ssa.Value) map[string]bo
 		out[x+" "+op.String()+" "+y] = true
 	}
 	b := at.Block()
-	for x := b; x != nil; x = x.Idom() {
-		if len(x.Preds) == 1 {
-			pp := x.Preds[0]
-			if iff, ok := pp.Instrs[len(pp.Instrs)-1].(*ssa.If); ok && pp.Succs[0] != pp.Succs[1] {
-				addCond(iff.Cond, pp.Succs[0] == x)
-			}
-		}
+	for _, ec := range allEntryConds(b) {
+		addCond(ec.Cond, ec.Val)
 	}
 	if extra != nil {
 		addCond(extra, true)
@@ -977,7 +992,7 @@ func checkWindow(r *Run, rc *RuleCtx, cl *closures, sums map[*ssa.Function]*IntS
 		initOK, stepOK := false, false
 		for i, e := range ph.Edges {
 			pred := ph.Block().Preds[i]
-			if pred.Dominates(ph.Block()) && !ph.Block().Dominates(pred) {
+			if blockDominates(pred, ph.Block()) && !blockDominates(ph.Block(), pred) {
 				// initial window
 				if isl, ok := e.(*ssa.Slice); ok {
 					lo, lok := constInt(isl.Low)
@@ -1028,6 +1043,7 @@ func checkWindow(r *Run, rc *RuleCtx, cl *closures, sums map[*ssa.Function]*IntS
 // isU16At: v is int(Uint16(x[off:off+2])) for some slice x.
 func isU16At(pr *Prover, v ssa.Value, off int64) bool {
 	for i := 0; i < 6; i++ {
+		v = canonPhi(v)
 		switch x := v.(type) {
 		case *ssa.Convert:
 			v = x.X
